@@ -86,10 +86,11 @@ type Interp struct {
 	envSym     map[string]Str
 	vtime      int64
 	noIntr     map[string]int
-	pendingGo  []pendingGo
 	initFailSeen map[string]bool
 	pathsSinceRestart int
+	timerObjs  map[*Value]*vtimer
 	uniqueTab  map[string]*Value
+	tolerateUnsupported bool
 	fsFiles    map[string]*fsFile
 	openFiles  map[*Value]*openFile
 	pureCache  map[*ssa.Function]int8
@@ -559,13 +560,12 @@ func (it *Interp) callSSA(caller *frame, site ssa.Instruction, fn *ssa.Function,
 		if ext, ok := intrinsics[name]; ok && it.noIntr[name] == 0 {
 			it.intrSeen[name] = true
 			fr := &frame{it: it, caller: caller, fn: fn, callInstr: site}
-			if caller != nil {
-				fr.g = caller.g
-			}
+			fr.g = it.cur
 			return ext(fr, args)
 		}
 		if fn.Blocks == nil {
-			panic(engineErr("no code for function: %s", name))
+			_, _, tr := it.innermostCasket()
+			panic(engineErr("no code for function: %s (stack: %s)", name, tr))
 		}
 	}
 	if it.depth > maxDepth {
@@ -578,9 +578,7 @@ func (it *Interp) callSSA(caller *frame, site ssa.Instruction, fn *ssa.Function,
 	}
 	fi := it.info(fn)
 	fr := &frame{it: it, caller: caller, fn: fn, info: fi, callInstr: site}
-	if caller != nil {
-		fr.g = caller.g
-	}
+	fr.g = it.cur
 	fr.env = make([]Value, fi.n)
 	fr.block = fn.Blocks[0]
 	for _, l := range fn.Locals {
